@@ -1577,4 +1577,120 @@ theorem sig_run : ∀ (acts : List Act) (s s' : Sys), SigInv s.d → runActs s a
 theorem sigInv_init (n : Nat) (mf : MaxFail) : SigInv (Sys.init n mf).d := by
   intro _ c hc; simp [Sys.init, DState.init] at hc
 
+/-! ### progress: nobody waits for the dispatcher for ever -/
+
+/-- what a delivery does to the channel and to the phases -/
+theorem deliver_facts (s s' : Sys) (h : step s .deliver = some s') :
+    ∃ e rest, s.chan = e :: rest ∧ s'.chan = rest ∧
+      ∀ j, s'.phase j = s.phase j ∨
+        ((e = .started j ∨ ∃ a t, e = .retryStarted j a t) ∧ (s'.phase j = .running ∨ s'.phase j = .gone)) := by
+  simp only [step] at h
+  split at h
+  · cases h
+  · rename_i e rest hch
+    split at h
+    · cases h
+    · rename_i d' o _
+      refine ⟨e, rest, hch, ?_⟩
+      have other : ∀ (t : Sys) (i : Nat) (p : UPhase), (p = .running ∨ p = .gone) → (∀ j, t.phase j = s.phase j) →
+          (e = .started i ∨ ∃ a b, e = .retryStarted i a b) → ∀ j, (setPhase t i p).phase j = s.phase j ∨
+            ((e = .started j ∨ ∃ a b, e = .retryStarted j a b) ∧ ((setPhase t i p).phase j = .running ∨ (setPhase t i p).phase j = .gone)) := by
+        intro t i p hp ht he j
+        by_cases hj : j = i
+        · subst hj
+          refine Or.inr ⟨he, ?_⟩
+          rcases hp with rfl | rfl <;> simp [setPhase]
+        · exact Or.inl (by simp [setPhase, hj, ht j])
+      cases e with
+      | started i =>
+        simp only at h
+        split at h <;> (simp only [Option.some.injEq] at h; subst h)
+        · exact ⟨rfl, other _ i _ (Or.inl rfl) (fun j => rfl) (Or.inl rfl)⟩
+        · exact ⟨rfl, other _ i _ (Or.inr rfl) (fun j => rfl) (Or.inl rfl)⟩
+      | retryStarted i a t =>
+        simp only at h
+        split at h <;> (simp only [Option.some.injEq] at h; subst h)
+        · exact ⟨rfl, other _ i _ (Or.inl rfl) (fun j => rfl) (Or.inr ⟨a, t, rfl⟩)⟩
+        · exact ⟨rfl, other _ i _ (Or.inr rfl) (fun j => rfl) (Or.inr ⟨a, t, rfl⟩)⟩
+      | _ =>
+        simp only [Option.some.injEq] at h; subst h
+        exact ⟨rfl, fun j => Or.inl rfl⟩
+
+/-- a unit waiting for the reply to its `Started` / `RetryStarted` has it after at most as many deliveries as there are messages in the channel -/
+theorem waiting_answered : ∀ (n : Nat) (s : Sys), Inv s → Inv2 s → s.chan.length = n → ∀ i,
+    (s.phase i = .waitStart ∨ s.phase i = .waitRetry) →
+    ∃ k s', k ≤ n ∧ runActs s (List.replicate k .deliver) = some s' ∧ (s'.phase i = .running ∨ s'.phase i = .gone) := by
+  intro n
+  induction n with
+  | zero =>
+    intro s _ h2 hl i hp
+    have hch : s.chan = [] := List.eq_nil_of_length_eq_zero hl
+    have := h2.pat i
+    rw [hch] at this
+    rcases hp with hp | hp <;> rw [hp] at this <;> simp [Pat, proj] at this
+  | succ n ih =>
+    intro s h1 h2 hl i hp
+    have hne : s.chan ≠ [] := by intro h; rw [h] at hl; simp at hl
+    obtain ⟨s1, hs1⟩ := deliver_enabled s h1 h2 hne
+    obtain ⟨e, rest, hch, hch', hph⟩ := deliver_facts s s1 hs1
+    have h1' := inv_step s .deliver s1 h1 hs1
+    have h2' := inv2_step s .deliver s1 h1 h2 hs1
+    rcases hph i with hsame | ⟨_, hdone⟩
+    · have hl' : s1.chan.length = n := by rw [hch', ← Nat.succ_inj]; rw [hch] at hl; simpa using hl
+      obtain ⟨k, s', hk, hr, hfin⟩ := ih s1 h1' h2' hl' i (by rw [hsame]; exact hp)
+      exact ⟨k + 1, s', by omega, by simp [List.replicate_succ, runActs, hs1, hr], hfin⟩
+    · exact ⟨1, s1, by omega, by simp [List.replicate, runActs, hs1], hdone⟩
+
+
+theorem progress_possible (s : Sys) (h2 : Inv2 s) (h1 : Inv s) (i : Nat) (hp : s.phase i ≠ .done ∧ s.phase i ≠ .gone) :
+    ∃ a, (a = .dispatch i ∨ a = .deliver ∨ (∃ r sl, a = .exitFinish i r sl) ∨ ∃ x y, a = .delayExpires i x y) ∧
+      (step s a).isSome = true := by
+  cases hph : s.phase i with
+  | notStarted => exact ⟨.dispatch i, Or.inl rfl, by simp [step, hph]⟩
+  | waitStart =>
+    have hne : s.chan ≠ [] := by
+      intro hc; have := h2.pat i; rw [hph, hc] at this; simp [Pat, proj] at this
+    obtain ⟨s', hs'⟩ := deliver_enabled s h1 h2 hne
+    exact ⟨.deliver, Or.inr (Or.inl rfl), by rw [hs']; rfl⟩
+  | waitRetry =>
+    have hne : s.chan ≠ [] := by
+      intro hc; have := h2.pat i; rw [hph, hc] at this; simp [Pat, proj] at this
+    obtain ⟨s', hs'⟩ := deliver_enabled s h1 h2 hne
+    exact ⟨.deliver, Or.inr (Or.inl rfl), by rw [hs']; rfl⟩
+  | running => exact ⟨.exitFinish i .pass false, Or.inr (Or.inr (Or.inl ⟨_, _, rfl⟩)), by simp [step, hph]⟩
+  | delay => exact ⟨.delayExpires i 0 0, Or.inr (Or.inr (Or.inr ⟨_, _, rfl⟩)), by simp [step, hph]⟩
+  | done => exact absurd hph hp.1
+  | gone => exact absurd hph hp.2
+
+/-- a `Finished` in flight is handled after at most as many deliveries as there are messages in the channel -/
+theorem finished_processed : ∀ (n : Nat) (s : Sys), Inv s → Inv2 s → s.chan.length = n → ∀ i, s.phase i = .done →
+    ∃ k s', k ≤ n ∧ runActs s (List.replicate k .deliver) = some s' ∧ s'.phase i = .done ∧ proj i s'.chan = [] := by
+  intro n
+  induction n with
+  | zero =>
+    intro s _ _ hl i hp
+    have hch : s.chan = [] := List.eq_nil_of_length_eq_zero hl
+    exact ⟨0, s, by omega, by simp [runActs], hp, by rw [hch]; rfl⟩
+  | succ n ih =>
+    intro s h1 h2 hl i hp
+    by_cases hpr : proj i s.chan = []
+    · exact ⟨0, s, by omega, by simp [runActs], hp, hpr⟩
+    · have hne : s.chan ≠ [] := by intro h; rw [h] at hpr; exact hpr rfl
+      obtain ⟨s1, hs1⟩ := deliver_enabled s h1 h2 hne
+      obtain ⟨e, rest, hch, hch', hph⟩ := deliver_facts s s1 hs1
+      have h1' := inv_step s .deliver s1 h1 hs1
+      have h2' := inv2_step s .deliver s1 h1 h2 hs1
+      have hl' : s1.chan.length = n := by rw [hch', ← Nat.succ_inj]; rw [hch] at hl; simpa using hl
+      have hsame : s1.phase i = .done := by
+        rcases hph i with hs | ⟨he, _⟩
+        · rw [hs]; exact hp
+        · -- the head would be a Started / RetryStarted of a unit that is done: not among its undelivered messages
+          have hpat := h2.pat i
+          rw [hp, hch] at hpat
+          rcases he with rfl | ⟨a, t, rfl⟩
+          · simp [Pat, proj, mentions] at hpat
+          · simp [Pat, proj, mentions] at hpat
+      obtain ⟨k, s', hk, hr, hfin⟩ := ih s1 h1' h2' hl' i hsame
+      exact ⟨k + 1, s', by omega, by simp [List.replicate_succ, runActs, hs1, hr], hfin⟩
+
 end NextestModel.System
